@@ -254,4 +254,45 @@ def maximize [BEq F] [Neg F] (attempt : Nat → Attempt F) (maxReps : Nat) (boun
 
 end wrapper
 
+/-! ### `FuncWithGradsFunctor` (minimizers/iminuit.py) and the life time of its cache -/
+
+section functor
+variable {F : Type} [BEq F]
+
+/-- state of a `FuncWithGradsFunctor`: `(_cache_x, _cache_f, _cache_grads)` (`none` before the first call)
+and the number of calls of the wrapped function (cost; diagnostic only) -/
+structure FunctorState (F : Type) where
+  cache : Option (List F × F × List F)
+  ncalls : Nat
+
+def FunctorState.empty : FunctorState F := { cache := none, ncalls := 0 }
+
+/-- common part of `get_f` / `get_grads`: a hit (`np.all(x == cache_x)`) answers from the cache, otherwise
+the function is called with *the functor's own* `func_args` (here: `func` is the function with its
+arguments bound) and the one-entry cache is replaced. -/
+def functorStep (func : List F → F × List F) (s : FunctorState F) (x : List F) :
+    FunctorState F × (F × List F) :=
+  match s.cache with
+  | some (cx, cf, cg) =>
+    if x == cx then (s, (cf, cg))
+    else let r := func x; ({ cache := some (x, r.1, r.2), ncalls := s.ncalls + 1 }, r)
+  | none => let r := func x; ({ cache := some (x, r.1, r.2), ncalls := s.ncalls + 1 }, r)
+
+/-- a sequence of `get_f` / `get_grads` calls at the given points on one functor: what each call sees
+(value and gradients; `get_f` returns the first, `get_grads` the second component) -/
+def functorRun (func : List F → F × List F) : FunctorState F → List (List F) → List (F × List F) × FunctorState F
+  | s, [] => ([], s)
+  | s, x :: xs =>
+    let r := functorStep func s x
+    let rest := functorRun func r.1 xs
+    (r.2 :: rest.1, rest.2)
+
+/-- `IMinuitMinimizerImpl.minimize` called several times on one object: every call builds a *new* functor
+from that call's `func` and `func_args` (`calls`: per call the bound function and the points the optimiser
+asks for); nothing is carried from one call to the next. -/
+def functorCalls (calls : List ((List F → F × List F) × List (List F))) : List (List (F × List F)) :=
+  calls.map (fun c => (functorRun c.1 FunctorState.empty c.2).1)
+
+end functor
+
 end Minimizer
